@@ -70,7 +70,7 @@ impl<'a> Rd<'a> {
 }
 
 fn amt(r: &mut Rd) -> Amt {
-    Amt { class: r.u8() % 10, mant: r.u32() }
+    Amt { class: r.u8() % 11, mant: r.u32() }
 }
 
 pub fn decode_cfg(r: &mut Rd) -> Cfg {
